@@ -47,8 +47,17 @@ def regress(ctx, prop=None):
     return ctx.validate([out])
 
 
+def wal_models(ctx, family, pinned):
+    """Exhaustive TLC runs of the bounded Wal model: the repaired design must satisfy every invariant,
+    each pinned-behaviour config must be refuted (standing non-vacuity test of model + invariants)."""
+    ctx.model_check("Wal.tla", "cfg/wal_%s_%s.cfg" % (family, "q" if ctx.quick() else "t"), timeout=3000)
+    for d in pinned:
+        ctx.model_check("Wal.tla", "cfg/wal_pinned_%s.cfg" % d, expect_violation="*", timeout=900)
+
+
 def c03(ctx):
     q = ctx.quick()
+    wal_models(ctx, "crash", ["D11"])
     rejs = regress(ctx) + fault_family(ctx, "crash", "crash", CORES, 12 if q else 120, 25, ["-twice"] if not q else [])
     ctx.report_rejections(rejs, describe_generic)
     h = ctx.cov["harness"]["crash"]
@@ -67,6 +76,9 @@ POWER_MODEL = "power-loss model of the property statement: directory operations 
 
 def c04(ctx):
     q = ctx.quick()
+    wal_models(ctx, "crash", ["D2"])
+    if not q:
+        ctx.model_check("Wal.tla", "cfg/wal_crash3_t.cfg", timeout=3000)
     rejs = regress(ctx) + fault_family(ctx, "crash-epochs", "crash", CORES, 10 if q else 100, 25, ["-epochs", "-twice", "-depth", "1"])
     ctx.report_rejections(rejs, describe_generic)
     h = ctx.cov["harness"]["crash-epochs"]
@@ -80,6 +92,7 @@ def c04(ctx):
 
 def c06(ctx):
     q = ctx.quick()
+    wal_models(ctx, "power", ["D3a", "D3b", "D9"])
     n = 4 if q else 40
     rejs = regress(ctx) + fault_family(ctx, "power", "power", CORES // 2, n, 18, ["-noreopen", "-epochs", "-plimit", "32" if q else "96"])
     rejs += fault_family(ctx, "power-syncw", "power", CORES // 2, n, 18, ["-noreopen", "-epochs", "-syncw", "-plimit", "32" if q else "96"])
@@ -95,6 +108,7 @@ def c06(ctx):
 
 def c09(ctx):
     q = ctx.quick()
+    wal_models(ctx, "power", ["D4"])
     n = 6 if q else 50
     rejs = regress(ctx) + fault_family(ctx, "closed-power", "power", CORES // 2, n, 16, ["-onlyclosed", "-plimit", "64" if q else "256"])
     rejs += fault_family(ctx, "closed-power-syncw", "power", CORES // 2, n, 16, ["-onlyclosed", "-syncw", "-plimit", "64" if q else "256"])
@@ -107,4 +121,42 @@ def c09(ctx):
                       "validated by TLC against Layer A (LossOK with the floor at ret(Close) = everything, i.e. exactly the closed contents)")
 
 
-CHECKS = {"C03": c03, "C04": c04, "C06": c06, "C09": c09}
+def seq_jobs(ctx, label, nshards, nprog, ops, keys, fss=("crashfs",)):
+    jobs, outs = [], []
+    os.makedirs(ctx.path("tmp"), exist_ok=True)
+    for i in range(nshards):
+        fsn = fss[i % len(fss)]
+        out = ctx.path("rec-%s-%d.ndjson" % (label, i))
+        outs.append(out)
+        jobs.append(["seq", "-fs", fsn, "-n", str(nprog), "-ops", str(ops), "-keys", str(keys), "-dir", ctx.path("tmp"),
+                     "-seed", str(ctx.seed * 7919 + i * 104729 + 1), "-out", out])
+    stats = ctx.vrun_parallel(jobs)
+    add_stats(ctx, stats, label)
+    return outs
+
+
+def lh_models(ctx):
+    ctx.model_check("LHIndex.tla", "cfg/lh_q.cfg" if ctx.quick() else "cfg/lh_t.cfg", timeout=3000)
+    if not ctx.quick():
+        ctx.model_check("LHIndex.tla", "cfg/lh_t3.cfg", timeout=3000)
+    ctx.model_check("LHIndex.tla", "cfg/lh_pinned_D1.cfg", expect_violation="*", timeout=600)
+
+
+def c01(ctx):
+    q = ctx.quick()
+    lh_models(ctx)
+    outs = seq_jobs(ctx, "seq-small", 4, 6 if q else 40, 60, 10, ("crashfs", "mem", "os", "osmmap"))
+    outs += seq_jobs(ctx, "seq-chains", 12, 3 if q else 20, 260 if q else 500, 72, ("crashfs", "crashfs", "osmmap", "mem", "os", "crashfs"))
+    rejs = regress(ctx) + ctx.validate(outs)
+    ctx.sample_from(outs[0], 1)
+    ctx.report_rejections(rejs, describe_generic)
+    h = ctx.cov["harness"]
+    ctx.cov["evaluations"] = h["seq-small"].get("ops", 0) + h["seq-chains"].get("ops", 0)
+    ctx.cov["distinct_nontrivial"] = h["seq-small"].get("programs", 0) + h["seq-chains"].get("programs", 0)
+    ctx.assumptions += ["key sets engineered with an independent MurmurHash3 copy under a pinned hash seed (hook VerifPinnedSeed): 1-2 low-bit classes (chains of 2-4 buckets) plus pairs with identical 32-bit hashes"]
+    return ctx.finish("model_checking", "random single-goroutine programs (fill, delete/re-put churn, reads, Sync, Compact, clean restarts) over 10 keys (full read-back after every write) and over ~80 colliding keys "
+                      "(Count + Get probe after every write, full read-back incl. Has and a full Items scan every 25 operations and at the end) on crashfs, fs.Mem, fs.OS and fs.OSMMap with 2-64 KB segments; "
+                      "every recording validated by TLC against Layer A (Lin/RetOk/ReadAll). distinct_nontrivial = programs")
+
+
+CHECKS = {"C01": c01, "C03": c03, "C04": c04, "C06": c06, "C09": c09}
